@@ -1,5 +1,7 @@
 """C05 — REUSE.toml path globs match exactly the language the specification defines."""
 import itertools
+import json
+import os
 from functools import lru_cache
 
 from core import Property, Stream, enc, enc_list
@@ -199,9 +201,195 @@ class ItemStream(Stream):
         return (tuple(case["gs"]), impl_out) if ("1" in impl_out and "0" in impl_out) else None
 
 
+# --------------------------------------------------------------------------
+# the property's last clause on real projects: "... matches the file's whole path *relative to that REUSE.toml*"
+
+
+def _ancestors(p):
+    parts = p.split("/")[:-1]
+    return ["/".join(parts[:k]) for k in range(len(parts) + 1)]
+
+
+def glob_escape(p):
+    return p.replace("\\", "\\\\").replace("*", "\\*")
+
+
+class NestedStream(Stream):
+    """Projects with several REUSE.toml files.  A table of the REUSE.toml in directory D applies to a file iff the file lies below D
+    (directory by directory, not character by character) and one of the table's globs matches the path relative to D."""
+    name = "nested"
+    rule = ("generated projects with a REUSE.toml in the root (p=0.6), in a directory D, in D/inner (p=0.45) and in a sibling of D (p=0.25); "
+            "D from 14 names (plain, with regular-expression / glob metacharacters: `a.b`, `x+y`, `lib[1]`, `v(1)`, `d$`, `q?`, `{n}`, `w|z`, "
+            "`pre^`, with a blank, non-ASCII), at top level or below `pkg/`; files in D, in D/inner, and in siblings whose names begin "
+            "with D's name (D-extra/, Ds/, D + `rary.c`, D/inner-utils/, the name with `.` replaced by `x`) or are a beginning of it; every "
+            "table has 1-2 globs from: `**`, `**/*.c`, `**/*.h`, `**/f.c`, `*`, `*.c`, `inner/**`, a literal file below D, and the "
+            "remainder a sibling's path would leave after cutting off D's name as a string (`-extra/**`, `s/h.c`, `rary.c`); all tables "
+            "`aggregate` with an own copyright marker; the real `reuse lint --json` run in the root and (every third case) with an absolute "
+            "--root from elsewhere; oracle: per file and REUSE.toml, the marker listed for the file must be that of the last matching "
+            "table (narrowest / widest reading of `**/` as a sandwich) when the file is below the REUSE.toml's directory, and none "
+            "otherwise; no model (oracle only); non-trivial = distinct projects in which a nested REUSE.toml applies to some file")
+    BASES = ["lib", "core", "a.b", "x+y", "lib[1]", "v(1)", "d$", "q?", "{n}", "w|z", "pre^", "my lib", "bibliothèque", "L"]
+
+    def cases(self, tier, rng):
+        for _ in range(1500 if tier == "thorough" else 110):
+            yield self.gen(rng)
+
+    def gen(self, rng):
+        base = rng.choice(self.BASES)
+        up = rng.choice(["", "", "pkg/"])
+        D = up + base
+        sibs = [D + "-extra/f.c", D + "s/h.c", D + "rary.c", D + "/inner-utils/e.h", D + "/innermost.c", D + ".c"]
+        if "." in base:
+            sibs.append(up + base.replace(".", "x") + "/f.c")
+        if len(base) > 1:
+            sibs.append(up + base[:-1] + "/p.c")
+            sibs.append(up + base[:-1])
+        inside = [D + "/f.c", D + "/g.h", D + "/inner/e.h", D + "/inner/k.c", D + "/inner/deep/f.c"]
+        files = ["top.c"] + rng.sample(inside, rng.randint(2, len(inside))) + rng.sample(sibs, rng.randint(2, min(5, len(sibs))))
+        if up:
+            files.append("pkg/other.c")
+        # a file and a directory cannot share a name
+        files = [f for f in files if not any(g.startswith(f + "/") for g in files)]
+        tdirs = [D]
+        if rng.random() < 0.6:
+            tdirs.insert(0, "")
+        if rng.random() < 0.45 and any(f.startswith(D + "/inner/") for f in files):
+            tdirs.append(D + "/inner")
+        sd = [os.path.dirname(f) for f in files if f in sibs and "/" in f and not os.path.dirname(f).startswith(D + "/")
+              and os.path.dirname(f) not in ("pkg", D)]
+        if sd and rng.random() < 0.25:
+            tdirs.append(rng.choice(sd))
+        tomls = []
+        for d in tdirs:
+            below = [f[len(d) + 1:] if d else f for f in files if d in _ancestors(f)]
+            # what cutting off d's name as a *string* would leave of the paths next to it
+            cut = [f[len(d):].lstrip("/") for f in files if d and f.startswith(d) and d not in _ancestors(f) and f != d]
+            tables = []
+            for _ in range(rng.choice([1, 1, 2, 3])):
+                gs = []
+                for _ in range(rng.choice([1, 1, 2])):
+                    r = rng.random()
+                    if r < 0.3:
+                        gs.append("**")
+                    elif r < 0.55:
+                        gs.append(rng.choice(["**/*.c", "**/*.h", "**/f.c", "**/e.h", "**/*"]))
+                    elif r < 0.7:
+                        gs.append(rng.choice(["*", "*.c", "*.h", "inner/**", "inner/*", "*/*.c"]))
+                    elif r < 0.85 and below:
+                        gs.append(glob_escape(rng.choice(below)))
+                    elif cut:
+                        c = rng.choice(cut)
+                        gs.append(glob_escape(c) if rng.random() < 0.5 or "/" not in c else glob_escape(c.split("/")[0]) + "/**")
+                    else:
+                        gs.append("nomatch/**")
+                tables.append(gs)
+            tomls.append({"dir": d, "tables": tables})
+        return {"files": sorted(set(files)), "tomls": tomls, "abs": rng.random() < 0.34}
+
+    @staticmethod
+    def marker(t, k):
+        return "2000 Table %d of REUSE.toml %d" % (k, t)
+
+    def tree(self, case):
+        out = {}
+        for f in case["files"]:
+            out[f] = "int x;\n"
+        for t, tm in enumerate(case["tomls"]):
+            parts = ["version = 1\n"]
+            for k, gs in enumerate(tm["tables"]):
+                parts.append("\n[[annotations]]\npath = [%s]\nprecedence = \"aggregate\"\nSPDX-FileCopyrightText = \"%s\"\nSPDX-License-Identifier = \"MIT\"\n"
+                             % (", ".join(json.dumps(g, ensure_ascii=False) for g in gs), self.marker(t, k)))
+            out[(tm["dir"] + "/" if tm["dir"] else "") + "REUSE.toml"] = "".join(parts)
+        out["LICENSES/MIT.txt"] = "text\n"
+        return out
+
+    def impl(self, case):
+        import cli
+        with cli.scratch("rv-c05n-") as base:
+            root = os.path.join(base, "proj")
+            other = os.path.join(base, "elsewhere")
+            os.makedirs(root)
+            os.makedirs(other)
+            cli.write_tree(root, self.tree(case))
+            rr = os.path.realpath(root)
+            if case["abs"]:
+                code, out, exc = cli.run_cli(["--no-multiprocessing", "--root", root, "lint", "--json"], other)
+                cwd = other
+            else:
+                code, out, exc = cli.run_cli(["--no-multiprocessing", "lint", "--json"], root)
+                cwd = root
+            if exc is not None:
+                return "EXC:%s:%s" % (type(exc).__name__, str(exc)[:100])
+            try:
+                rep, _ = json.JSONDecoder().raw_decode(out[out.index("{"):])
+            except Exception:
+                return "EXC:output:%s" % out[:100]
+
+            def norm(s):
+                for b in (cwd, rr):
+                    q = os.path.realpath(os.path.join(b, s))
+                    if (q == rr or q.startswith(rr + os.sep)) and os.path.lexists(q):
+                        return os.path.relpath(q, rr)
+                return "RAW:" + s
+            res = {}
+            for f in rep["files"]:
+                res[norm(f["path"])] = sorted([norm(c["source"]) if c.get("source_type") == "reuse-toml" else str(c.get("source_type")), c["value"]]
+                                              for c in f["copyrights"])
+            return json.dumps(res, sort_keys=True, ensure_ascii=False)
+
+    def oracle(self, case, impl_out):
+        if impl_out.startswith("EXC"):
+            return "nested-crash: " + impl_out
+        got = json.loads(impl_out)
+        where = "--root <absolute> from another directory" if case["abs"] else "run in the root"
+        for f in case["files"]:
+            if f not in got:
+                return "nested-file-missing: %s has no entry in files[] (%s)" % (f, where)
+            listed = got[f]
+            for t, tm in enumerate(case["tomls"]):
+                d = tm["dir"]
+                tpath = (d + "/" if d else "") + "REUSE.toml"
+                mine = [v for src, v in listed if src == tpath]
+                ks = [k for k in range(len(tm["tables"])) if self.marker(t, k) in mine]
+                if len(ks) != len(mine):
+                    return "nested-foreign-value: %s: items with source %s that no table of it states: %s" % (f, tpath, mine)
+                if d not in _ancestors(f):
+                    if mine:
+                        return ("nested-overreach: %s received the annotation %r of %s although it does not lie below %r (%s); globs %s"
+                                % (f, mine, tpath, d + "/", where, [tm["tables"][k] for k in ks]))
+                    continue
+                rel = f[len(d) + 1:] if d else f
+                narrow = [k for k, gs in enumerate(tm["tables"]) if any(denotes(g, rel, False) for g in gs)]
+                wide = [k for k, gs in enumerate(tm["tables"]) if any(denotes(g, rel, True) for g in gs)]
+                ok = {k for k in wide if not any(n > k for n in narrow)}
+                if len(ks) > 1:
+                    return "nested-several-tables: %s carries %s of %s; only the last matching table applies" % (f, mine, tpath)
+                if ks and ks[0] not in ok:
+                    return ("nested-overmatch: %s (relative to %s: %r) received table %d of %s, globs %s; the last table whose globs match is %s (%s)"
+                            % (f, d or ".", rel, ks[0], tpath, tm["tables"][ks[0]], sorted(ok) or "none", where))
+                if not ks and narrow:
+                    return ("nested-undermatch: %s (relative to %s: %r) is matched by table %d of %s, globs %s, and received nothing from it (%s)"
+                            % (f, d or ".", rel, narrow[-1], tpath, tm["tables"][narrow[-1]], where))
+            known = {(tm["dir"] + "/" if tm["dir"] else "") + "REUSE.toml" for tm in case["tomls"]}
+            stray = [x for x in listed if x[0] not in known]
+            if stray:
+                return "nested-stray-source: %s lists %s" % (f, stray)
+        return None
+
+    def nontrivial(self, case, impl_out):
+        if impl_out.startswith("EXC"):
+            return None
+        got = json.loads(impl_out)
+        deep = {(tm["dir"] + "/REUSE.toml") for tm in case["tomls"] if tm["dir"]}
+        return impl_out if any(src in deep for items in got.values() for src, v in items) else None
+
+    def show(self, case):
+        return {"files": self.tree(case), "invocation": "lint --json with an absolute --root from another directory" if case["abs"] else "lint --json in the root"}
+
+
 PROPERTY = Property(
     pid="C05",
-    streams=[GlobStream(), ItemStream()],
+    streams=[GlobStream(), ItemStream(), NestedStream()],
     assumptions=[
         "CPython re is modelled for the emitted fragment (literal, [^/]*, .*, (?:.*/)?, full match) by Py.Re.bt, whose soundness/completeness w.r.t. the denotational language is proved; the tie to CPython's engine is the exhaustive differential",
         "a lone final backslash in a glob has no meaning in the written language (wfGlob); the code ignores it — excluded from the oracle, still compared model vs code",
